@@ -58,6 +58,7 @@ U.fn(F, 'collect_sources',
                             name='BFS: everything visited or queued is reachable from the root')],
                ensures=['files@.len() == 0'],
                decreases='fs_universe(fs).difference(fset(&file_set)).len(), files@.len()',
+               before_loop='let ghost mut qg = files@; proof { lemma_reach_root(incmap(db), fset(&file_set), root_file); assert(files@[0] == root_file); }',
                body_prologue='let ghost v0 = fset(&file_set); let ghost m0 = incmap(db); let ghost q0 = files@; '
                              'proof { lemma_reach_root(m0, v0, root_file); lemma_pop_contains(qg, file_id, q0); }',
                body_epilogue='; proof { qg = files@; let v1 = fset(&file_set); let m1 = incmap(db); let uu = fs_universe(fs); '
@@ -90,6 +91,5 @@ U.fn(F, 'collect_sources',
      },
      body_proofs=[(r'SourceRoot::new\(file_set, root_file\)', 'proof { assert(files@.len() == 0); assert forall|g: FileId| !files@.contains(g) by { if files@.contains(g) { let i = choose|i: int| 0 <= i < files@.len() && files@[i] == g; } } '
                    'assert forall|f: FileId| fset(&file_set).contains(f) implies reachable(incmap(db), root_file, f) by { lemma_via_is_reachable(incmap(db), fset(&file_set), root_file, f); } }'),
-                  (r'while let Some\(file_id\)', 'let ghost mut qg = files@; proof { lemma_reach_root(incmap(db), fset(&file_set), root_file); assert(files@[0] == root_file); }'),
                   (r'continue;', 'proof { qg = files@; }', 'optional')],
      )
